@@ -11,7 +11,7 @@ META = {
              'entry point (replace, put, attribute/view assignment; for list slots also put_slice(one=True), insert+remove, view slice assignment, append to a shortened list) '
              'x pars in {auto, True}. Expected tree = pure-AST replacement (contexts fixed like the compiler); the combination is in scope iff '
              'ast.parse(ast.unparse(expected)) round-trips to the same structure. Oracle: ast.parse(root.src) has exactly the expected structure and the C01 oracle holds. '
-             'A cell is (parent template, slot, child, entry point); non-trivial = the child needed or already had parentheses/brackets.'),
+             'A cell is (parent template, slot, child, entry point); non-trivial = the child needed or already had parentheses/brackets. Parent templates include the async twins (async with/for/def, async comprehension) and clause-level slots (except*, elif, annotations, type parameters, decorators).'),
     'budget': {'quick': 60, 'thorough': 900},
     'floors': {'quick': {'cases_judged': 60000, 'slots': 150, '#cells': 3000}, 'thorough': {'cases_judged': 200000, 'slots': 150, '#cells': 5000}},
     'exhaustive': {'quick': False, 'thorough': True},
